@@ -30,7 +30,8 @@ def loop_key(node):
 
 
 class _Weaver(ast.NodeTransformer):
-    def __init__(self, inserts, ret_hook):
+    def __init__(self, inserts, ret_hook, ret_locals=False):
+        self.ret_locals = ret_locals
         self.inserts = inserts        # list of dict(where, key, code, nth)
         self.used = set()
         self.ret_hook = ret_hook
@@ -87,14 +88,15 @@ class _Weaver(ast.NodeTransformer):
                 st = self.visit_FunctionDef(st)
             elif isinstance(st, ast.Return) and self.ret_hook:
                 val = st.value if st.value is not None else ast.Constant(None)
-                st = ast.Return(value=ast.Call(func=ast.Name(self.ret_hook, ast.Load()), args=[val], keywords=[]))
+                extra = [ast.Call(func=ast.Name('locals', ast.Load()), args=[], keywords=[])] if self.ret_locals else []
+                st = ast.Return(value=ast.Call(func=ast.Name(self.ret_hook, ast.Load()), args=[val] + extra, keywords=[]))
             out.extend(pre)
             out.append(st)
             out.extend(post)
         return out
 
 
-def weave(module, qualname, inserts=(), hooks=None, ret_hook=None, entry=None):
+def weave(module, qualname, inserts=(), hooks=None, ret_hook=None, entry=None, ret_locals=False):
     """Returns a woven copy of module.<qualname> (top-level function).
 
     inserts: dicts {'where': before|after|loop_head|loop_tail, 'key': unparsed stmt or loop header, 'code': python source,
@@ -107,7 +109,7 @@ def weave(module, qualname, inserts=(), hooks=None, ret_hook=None, entry=None):
     node, src = get_funcdef(module, qualname)
     node.decorator_list = []
     inserts = [dict(i) for i in inserts]
-    w = _Weaver(inserts, ret_hook)
+    w = _Weaver(inserts, ret_hook, ret_locals)
     w.depth = 1
     w.generic_visit_body(node)
     missing = [inserts[i] for i in range(len(inserts)) if i not in w.used]
